@@ -28,6 +28,21 @@ def modules(repo):
            ensures=[('C15.add_codepoints', 'final(vec)@ == old(vec)@.push(if range.start.v() == range.end.v() { Codepoints::Single(range.start) } else { Codepoints::Range(*range) })')]),
         Fn('add_range',
            ensures=[('C15.add_range', 'match range { Some(r) => final(out)@ == old(out)@.push(%s), None => final(out)@ == old(out)@ }' % entry)]),
+        # `format!` in the error path: signature only; HashSet::insert semantics assumed
+        Fn('insert_codepoint', ret='r', mode='sig',
+           ensures=[('TRUSTED.insert_codepoint', 'match r { Ok(_) => !old(set)@.contains(cp) && final(set)@ == old(set)@.insert(cp), Err(_) => old(set)@.contains(cp) && final(set)@ == old(set)@ }')]),
+        Fn('insert_codepoint_range', ret='r',
+           requires=[('REQ.range_order', 'range.start.v() <= range.end.v()')],
+           ensures=[('C15.insert_range_ok', 'r is Ok ==> forall|x: u32| final(set)@.contains(x) <==> (old(set)@.contains(x) || range.start.v() <= x <= range.end.v())'),
+                    ('C15.insert_range_fresh', 'r is Ok ==> forall|x: u32| range.start.v() <= x <= range.end.v() ==> !old(set)@.contains(x)'),
+                    ('C15.insert_range_err', 'r is Err ==> exists|x: u32| range.start.v() <= x <= range.end.v() && old(set)@.contains(x)')],
+           head='let ghost set0 = set@;',
+           loops={1: Loop(ghost='it', invariants=[
+               ('C15.ir_set', 'forall|x: u32| set@.contains(x) <==> (set0.contains(x) || (range.start.v() <= x && (x as int) < range.start.v() + it.index@))'),
+               ('C15.ir_fresh', 'forall|x: u32| range.start.v() <= x && (x as int) < range.start.v() + it.index@ ==> !set0.contains(x)'),
+               ('C15.ir_old', 'set0 == old(set)@'),
+               ('C15.ir_seq', 'range.start.v() <= range.end.v() && it.seq() =~= Seq::new((range.end.v() - range.start.v() + 1) as nat, |i: int| (range.start.v() + i) as u32)'),
+           ], head='proof { assert(cp == range.start.v() + it.index@); assert(range.start.v() <= cp <= range.end.v()); assert(set@.contains(cp) ==> set0.contains(cp)); assert(set0 == old(set)@); }')}),
         Fn('get_codepoints_vector', ret='res',
            requires=[('REQ.valid_cps', 'forall|x: u32| codepoints@.contains(x) ==> x <= 0x10FFFF')],
            ensures=[('C15.set_table_well_formed', 'well_formed(res@)'),
@@ -45,8 +60,8 @@ def modules(repo):
     }
     assert forall|x: u32| covered(out@, x as int) <==> codepoints@.contains(x) by {
         let xi = x as int;
-        let rhs = exists|i: int| 0 <= i < done && #[trigger] vals[i] == xi;
-        assert((covered(out1, xi) || (range matches Some(r) && r.start.v() <= xi <= r.end.v())) <==> rhs);
+        let rhs = seen_vals(vals, done, xi);
+        assert(have_set(out1, range, xi) <==> rhs);
         match range {
             Some(r) => {
                 let e = out@.last();
@@ -72,7 +87,7 @@ def modules(repo):
                ('C15.gcv_pending1', 'range matches Some(r) ==> r.start.v() <= r.end.v()'),
                ('C15.gcv_pending2', 'range matches Some(r) ==> r.end.v() as int == vals[it.index@ - 1]'),
                ('C15.gcv_pending3', 'range matches Some(r) ==> forall|i: int| 0 <= i < out@.len() ==> hi(#[trigger] out@[i]) < r.start.v()'),
-               ('C15.gcv_denotes', 'forall|x: int| (covered(out@, x) || (range matches Some(r) && r.start.v() <= x <= r.end.v())) <==> (exists|i: int| 0 <= i < it.index@ && #[trigger] vals[i] == x)'),
+               ('C15.gcv_denotes', 'forall|x: int| #[trigger] have_set(out@, range, x) <==> seen_vals(vals, done, x)'),
            ], head='''let ghost out0 = out@;
 let ghost range0 = range;
 let ghost k = it.index@;
@@ -89,22 +104,20 @@ proof { assert(**cp as int == vals[k]); assert(forall|i: int| 0 <= i < k ==> val
             if i < out0.len() { assert(out@[i] == out0[i]); }
         }
     }
-    assert forall|x: int| (covered(out@, x) || (range matches Some(r) && r.start.v() <= x <= r.end.v())) <==> (exists|i: int| 0 <= i < k + 1 && #[trigger] vals[i] == x) by {
-        let lhs0 = covered(out0, x) || (range0 matches Some(r) && r.start.v() <= x <= r.end.v());
-        let rhs0 = exists|i: int| 0 <= i < k && #[trigger] vals[i] == x;
-        assert(lhs0 <==> rhs0);
-        if rhs0 { let i = choose|i: int| 0 <= i < k && #[trigger] vals[i] == x; assert(0 <= i < k + 1 && vals[i] == x); }
+    assert forall|x: int| #[trigger] have_set(out@, range, x) <==> seen_vals(vals, k + 1, x) by {
+        assert(have_set(out0, range0, x) <==> seen_vals(vals, k, x));
+        if seen_vals(vals, k, x) { let i = choose|i: int| 0 <= i < k && #[trigger] vals[i] == x; assert(0 <= i < k + 1 && vals[i] == x); }
         if x == c { assert(0 <= k < k + 1 && vals[k] == x); }
-        if exists|i: int| 0 <= i < k + 1 && #[trigger] vals[i] == x {
+        if seen_vals(vals, k + 1, x) {
             let i = choose|i: int| 0 <= i < k + 1 && #[trigger] vals[i] == x;
-            if i < k { assert(rhs0); } else { assert(x == c); }
+            if i < k { assert(seen_vals(vals, k, x)); } else { assert(x == c); }
         }
     }
 }''',
            )}),
-    ], header='use super::*;\nuse crate::spec::*;\nuse crate::ucd_parse::Codepoints::{Range, Single};\nuse crate::ucd_parse::{Codepoint, CodepointRange, Codepoints, vx_sorted_refs};\n')
+    ], header='use super::*;\nuse crate::spec::*;\nuse crate::ucd_parse::Codepoints::{Range, Single};\nuse crate::ucd_parse::{Codepoint, CodepointRange, Codepoints, vx_sorted_refs};\nuse crate::error::Error;\n')
     parsers = Module('ucd_parsers', 'precis-tools/src/ucd_parsers.rs', [
-        StructFields(r'pub\s+struct\s+UnicodeData\b', keep=['codepoints', 'canonical_combining_class']),
+        StructFields(r'pub\s+struct\s+UnicodeData\b', keep=['codepoints', 'general_category', 'canonical_combining_class', 'bidi_class']),
     ], header='use super::*;\nuse crate::ucd_parse;\n')
     NEXT = 'self.range.start.v()'
     unassigned = Impl(
@@ -135,10 +148,31 @@ proof { assert(**cp as int == vals[k]); assert(forall|i: int| 0 <= i < k ==> val
     }
 }''')],
                 )])
+    ROWSET = 'Set::new(|x: u32| lo(udata.codepoints) <= x <= hi(udata.codepoints))'
+    line_parser = Impl(r'pub\s+trait\s+UcdLineParser<U>', header='pub trait UcdLineParser<U>', fns=[Fn('process_entry')])
+    virama = Impl(r'impl\s+UcdLineParser<ucd_parsers::UnicodeData>\s+for\s+ViramaTableGen\b', header='impl ViramaTableGen', fns=[
+        Fn('process_entry', ret='res', requires=[('REQ.row_wf', 'lo(udata.codepoints) <= hi(udata.codepoints)')],
+           ensures=[('C15.virama_row', 'res is Ok ==> forall|x: u32| final(self).set().contains(x) <==> (old(self).set().contains(x) || (udata.canonical_combining_class == 9 && lo(udata.codepoints) <= x <= hi(udata.codepoints)))'),
+                    ('C15.virama_err', 'res is Err ==> udata.canonical_combining_class == 9'),
+                    ],
+           )])
+    gctable = Impl(r'impl\s+UcdLineParser<ucd_parsers::UnicodeData>\s+for\s+UcdTableGen\b', header='impl UcdTableGen', fns=[
+        Fn('process_entry', ret='res', requires=[('REQ.row_wf', 'lo(udata.codepoints) <= hi(udata.codepoints)')],
+           ensures=[('C15.gc_row', 'res is Ok ==> forall|x: u32| final(self).set().contains(x) <==> (old(self).set().contains(x) || (old(self).key() == udata.general_category@ && lo(udata.codepoints) <= x <= hi(udata.codepoints)))'),
+                    ('C15.gc_err', 'res is Err ==> old(self).key() == udata.general_category@'),
+                    ('C15.gc_frame', 'final(self).key() == old(self).key()')],
+           head='proof { crate::ucd_parse::string_facts(); }')])
     gen = Module('ucd_generator', 'precis-tools/src/generators/ucd_generator.rs', [
+        Verbatim(r'pub\s+struct\s+UcdTableGen\b'),
+        Text('impl UcdTableGen { pub closed spec fn set(&self) -> Set<u32> { self.cps@ } pub closed spec fn key(&self) -> Seq<char> { self.name@ } }'),
+        gctable,
+        Verbatim(r'const\s+CANONICAL_COMBINING_CLASS_VIRAMA\b'),
+        Verbatim(r'pub\s+struct\s+ViramaTableGen\b'),
+        Text('impl ViramaTableGen { pub closed spec fn set(&self) -> Set<u32> { self.cps@ } }'),
+        virama,
         Verbatim(r'pub\s+struct\s+UnassignedTableGen\b'),
         unassigned,
-    ], header='use super::*;\nuse crate::spec::*;\nuse crate::common;\nuse crate::ucd_parse;\nuse crate::ucd_parsers;\nuse crate::ucd_parse::Codepoints;\nuse crate::error::Error;\n')
+    ], header='use super::*;\nuse crate::spec::*;\nuse crate::common;\nuse crate::ucd_parse;\nuse crate::ucd_parsers;\nuse crate::ucd_parse::Codepoints;\nuse crate::error::Error;\nbroadcast use {crate::ucd_parse::axiom_string_eq};\n')
     err = Module('error', None, [Text('''
 // MODEL of precis_tools::Error (message/line/path record built with format!): only its existence matters here
 #[derive(Debug)]
